@@ -344,7 +344,7 @@ def validate_records(ck, recs, shards=12, label='traces', corrupt_selftest=True,
                           'expected': 'the recorded execution is a behaviour of PegMachine',
                           'observed': {'events_matched': max(0, reached - 1), 'of': len(r['ev']),
                                        'around_rejection': r['ev'][max(0, reached - 3):reached + 1]},
-                          'why': 'trace rejected by PegTrace', 'spec': 'PegTrace!TNext'}, key='trace' + ebnf)
+                          'why': 'trace rejected by PegTrace', 'spec': 'PegTrace!TNext'}, key='trace' + ebnf + (r.get('src') or ''))
     ck.notes[f'{label}_validated'] = ck.notes.get(f'{label}_validated', 0) + nacc
     ck.notes.setdefault('trace_events', 0)
     ck.notes['trace_events'] += sum(len(r['ev']) for r in recs)
